@@ -525,6 +525,36 @@ Fixpoint gagg_run (a : gagg) (gs : list (val * list val)) (failure : option err)
       end
   end.
 
+(* ---- collection.name ------------------------------------------------------------------------------------------
+   `[{a => 1}, {a => 2}].a` is the map of "whatever `.` means in the calling context" over the elements
+   (collection_attribution receives the context's #operator_. as a delegate).  The element access is a parameter:
+     AccStd     the standard context: d[key], KeyError when the key is missing;
+     AccLegacy  yaql.legacy contexts: d.get(key), null when missing;
+     AccHost c  a child context in which the host overrides #operator_. for mappings with d.get(key, c).
+   The results are produced lazily, so an error surfaces after the results of the earlier elements. *)
+Inductive access := AccStd | AccLegacy | AccHost (c : Z).
+
+Definition access_elem (acc : access) (name : list Z) (x : val) : res val :=
+  match x with
+  | VDict _ d =>
+      match dict_get_l (VStr name) d with
+      | Some v => Ok v
+      | None => match acc with AccStd => Err EKey | AccLegacy => Ok VNull | AccHost c => Ok (VInt c) end
+      end
+  | _ => Unsupported
+  end.
+
+Fixpoint access_all (acc : access) (name : list Z) (l : list val) : option (list val * option err) :=
+  match l with
+  | [] => Some ([], None)
+  | x :: r =>
+      match access_elem acc name x with
+      | Ok v => match access_all acc name r with Some (o, e) => Some (v :: o, e) | None => None end
+      | Err e => Some ([], Some e)
+      | _ => None
+      end
+  end.
+
 Inductive stage :=
 | SWhere (p : lam) | SSelect (f : lam) | SSelectMany (f : lam)
 | SSkip (n : Z) | STake (n : Z)
@@ -569,7 +599,8 @@ Inductive stage :=
 | SAssertAny                                    (* .assert($.any()): memorizes an iterator, looks at its first element *)
 | SGroupByAggP (k : lam) (v : option lam) (agg : list stage) (term : nat)    (* aggregator: $ + pipeline + count / sum(0) / first(null) / toList *)
 | SSelectManyG (g : gsel)                       (* selectMany with a selector that returns a lazy group *)
-| SGroupByG (k : lam) (v : option lam) (a : gagg) (fallback : bool).   (* groupBy's aggregator protocol, group by group *)
+| SGroupByG (k : lam) (v : option lam) (a : gagg) (fallback : bool)
+| SProjectBy (name : list Z) (acc : access).      (* collection.name: the CONTEXT's member access mapped over the elements *)   (* groupBy's aggregator protocol, group by group *)
 
 (* yaqltypes.Iterable(): tuples, lists, sets, iterators, OrderingIterable; not dicts *)
 Definition as_it (r : rv) : option it :=
@@ -987,6 +1018,13 @@ Definition apply_stage (fuel : nat) (s : st) (sg : stage) (r : rv) : rr :=
                                             (fun x => match v with Some g => apply g x | None => x end) l)))
         else (s1, Err EType))
   | SSelectManyG g => with_it s r (fun i => ok_it s (SelectManyG g i))
+  | SProjectBy name acc =>
+      with_list fuel s r (fun s1 l =>
+        match access_all acc name l with
+        | Some (outs, None) => ok_it s1 (OfList outs)
+        | Some (outs, Some e) => ok_it s1 (Chain (OfList outs) (FailIt e))
+        | None => (s1, Unsupported)
+        end)
   | SGroupByG k v a fb =>
       with_list fuel s r (fun s1 l =>
         if forallb (fun x => hashable (apply k x)) l then
